@@ -5,7 +5,7 @@
 //!                                 the sequence of nervusdb-capi execute_write_count)
 //!   begin | tstmt <shape> <m> <t,…> | commit | rollback     explicit transaction (sequence of execute_write_in_txn)
 //!   raw <ext>                     low-level WriteTxn::create_node(ext) in its own transaction
-//!   del                           auto-commit DETACH DELETE of one node
+//!   del                           tombstone of node 0 in its own transaction (low-level API)
 //!   compact | reopen
 //!   dump                          `<n> <uniq> <stable> | iid:ext …` over i2e (resolve_external for iid = 0..)
 //! shapes: n = `UNWIND range(1,m) AS i CREATE (:L)`            one node per row
@@ -215,7 +215,15 @@ impl State for S {
                 if self.txn.is_some() {
                     return "bad-op".into();
                 }
-                self.run_raw("MATCH (n) WITH n LIMIT 1 DETACH DELETE n")
+                // low-level tombstone of the oldest node (the Cypher DELETE path would drag in C05's
+                // edge-free-segment panic after a compaction; identities are what this stream is about)
+                let db = self.db();
+                let mut txn = db.begin_write();
+                txn.tombstone_node(0);
+                match txn.commit() {
+                    Ok(()) => "ok".into(),
+                    Err(e) => format!("err {}", classify(&e.to_string())),
+                }
             }
             ["compact"] => {
                 if self.txn.is_some() {
@@ -258,25 +266,6 @@ impl State for S {
                 self.dump()
             }
             _ => "bad-op".into(),
-        }
-    }
-}
-
-impl S {
-    fn run_raw(&mut self, cy: &str) -> String {
-        let prepared = match prepare(cy) {
-            Ok(p) => p,
-            Err(e) => return format!("err syntax | {}", e),
-        };
-        let db = self.db();
-        let snapshot = db.snapshot();
-        let mut txn = db.begin_write();
-        match prepared.execute_mixed(&snapshot, &mut txn, &Params::new()) {
-            Ok(_) => match txn.commit() {
-                Ok(()) => "ok".into(),
-                Err(e) => format!("err other | {}", e),
-            },
-            Err(e) => format!("err {} | {}", classify(&e.to_string()), e),
         }
     }
 }
